@@ -32,6 +32,16 @@ class List(Environment):
                 pass
             return Command.invoke(self, tex)
 
+        def preArgument(self, arg, tex):
+            pass
+
+        def postArgument(self, arg, value, tex):
+            # An item with an explicit label (\item[...]) does not step
+            # the counter of the list
+            if value is not None:
+                self.counter = ''
+            self.refstepcounter(tex)
+
         def digest(self, tokens):
             """
             Items should absorb all of the content within that 
